@@ -713,7 +713,7 @@ public:
     for (size_t i = 0; i < m.getNumberOfRows(); i++)
     {
       out << "[";
-      for (size_t j = 0; j < m.getNumberOfColumns() - 1; j++)
+      for (size_t j = 0; j + 1 < m.getNumberOfColumns(); j++)
       {
         out << m(i, j) << ", ";
       }
@@ -741,7 +741,7 @@ public:
         out << ",";
 
       out << pIn;
-      for (size_t j = 0; j < m.getNumberOfColumns() - 1; j++)
+      for (size_t j = 0; j + 1 < m.getNumberOfColumns(); j++)
       {
         out << m(i, j) << ", ";
       }
@@ -789,7 +789,7 @@ public:
   {
     out << v.size() << std::endl;
     out << "[";
-    for (size_t i = 0; i < v.size() - 1; i++)
+    for (size_t i = 0; i + 1 < v.size(); i++)
     {
       out << v[i] << ", ";
     }
